@@ -5,6 +5,7 @@ mutants/<Cxx>/*.json:
    "edits": [{"file": "sentinel-core/src/...", "find": "<exact text>", "replace": "<text>", "count": 1}],
    "expect": ["<substring of a violation key>", ...]        # kill: at least one reported key must contain one of these
   }
+seeded/<id>/patch.diff with a meta.json "regression": [{"check": "Cxx", "expect": [...]}] entry is a kill mutant of Cxx given as a patch.
 A kill mutant must be reported (by a key matching `expect`); a neutral variant and the unmodified copy must be silent.
 A mutant whose `find` text is no longer present is *stale* (the code changed): counted and listed, it does not fail the run.
 A surviving kill mutant or an alarming neutral variant is a regression of the machinery: exit 2 (no VIOLATION line).
@@ -31,6 +32,14 @@ def load(prop):
         m = json.load(open(p))
         m["name"] = os.path.basename(p)[:-5]
         out.append(m)
+    # seeded changes written by independent sub-agents (seeded/<id>/): patches instead of find/replace edits; a seed is part of the
+    # corpus of every check listed in its meta.json "regression" entries
+    for p in sorted(glob.glob(os.path.join(VERIF, "seeded", "*", "meta.json"))):
+        meta = json.load(open(p))
+        for r in meta.get("regression") or []:
+            if r.get("check") == prop:
+                out.append({"kind": "kill", "name": "seeded:" + meta["id"], "patch": os.path.join(os.path.dirname(p), "patch.diff"),
+                            "expect": r.get("expect") or [""], "note": meta.get("summary")})
     return out
 
 
@@ -41,6 +50,9 @@ def make_copy(repo):
 
 
 def apply(d, m):
+    if m.get("patch"):
+        r = subprocess.run(["git", "apply", m["patch"]], cwd=d, capture_output=True, text=True)
+        return r.returncode == 0
     for e in m["edits"]:
         p = os.path.join(d, e["file"])
         try:
